@@ -21,13 +21,13 @@ BAD_KINDS = ['rows', 'length', 'words', 'type_traces', 'type_data', 'float_data'
 
 
 RULE = {
-    'C01': 'seeded histories: (kind, precision, trace dtype, regime, word layout, class list) x ordered partition into batches x '
+    'C01': 'seeded histories: (kind, precision, trace dtype over its full range, data dtype, memory layout C/F/strided, regime, word layout, class list) x ordered partition of up to 1000 rows into batches x '
            'compute()/compute-twice positions x clock script x worker-count changes; a case is non-trivial when it has >= 2 accepted '
            'batches; distinct = distinct (kind, precision, dtype, regime, op-kind sequence with batch lengths)',
     'C11': 'one seeded history executed under 4-8 environments (scripted process_time => kernel schedule; worker-count sequence); '
            'non-trivial when the environments really differ (>= 2 distinct executed kernel sequences or worker sequences); '
            'distinct = distinct (kind, precision, dtype, regime, set of executed kernel sequences, batch lengths)',
-    'C16': 'C01 histories with 1-3 refused update() calls inserted at any position incl. first (11 refusal kinds incl. low memory); '
+    'C16': 'C01 histories with 1-3 refused update() calls inserted at any position incl. first (13 refusal kinds incl. low memory, 1-D traces, float16 traces refused inside the compiled kernel, decoy-range first batch for automatic class sets, MIA with automatic bin edges); '
            'non-trivial when a refusal fired or >= 2 batches; distinct = distinct (kind, precision, dtype, regime, op sequence, refusal kinds)',
 }
 SIM_TIME_UNIT = {'C01': 'simulated CPU seconds (scripted process_time)', 'C11': 'simulated CPU seconds (scripted process_time)',
@@ -36,7 +36,7 @@ ASSUMPTIONS = {
     'C01': ['twin oracle: the one-batch answer of the same class is taken as the reference (the formula itself is C03/C04/C13, not claimed)',
             'exact regime: integer-valued traces sized so every accumulator stays below 2^24 (float32) / 2^53 (float64) => bitwise comparison',
             'float regime only on well-conditioned data (>= 16 rows before a compute, balanced classes), tolerance 1e-9 (f64) / 1e-2 (f32)',
-            'automatic class sets only when the first batch already contains the maximum; MIA with explicit bin edges and declared values only',
+            'automatic class sets only when the first batch already contains the maximum; MIA with explicit bin edges (undeclared values are treated by the twin in the same way)',
             'a numba kernel call is one atomic step'],
     'C11': ['every kernel sequence the code can produce under some clock is producible by scripting durations; sequences starting with kernel 2 are unreachable in the code',
             'worker counts 1..16 via numba.set_num_threads; scheduling inside a kernel is not controlled',
